@@ -100,7 +100,7 @@ theorem influx_out {e : Env} {nd : Nd} {child : Option Nd} {B : Nat} (hk : nd.ki
         | false => simp [nodeStep, hk, hnd, hf, h1, h2, h3, hea, hst]
 
 theorem node_local {e : Env} {nd : Nd} {child : Option Nd} (hD : DNode nd)
-    (hhook : e.hookLock = false) (hleak : e.alertLeak = false) (hea : e.influxEarlyAbort = false) (hnd : nd.done = false)
+    (hhook : e.hookLock = false) (hleak : e.alertLeak = false) (hea : e.influxEarlyAbort = false) (hfo : e.udfFwdOrphan = false) (hnd : nd.done = false)
     (hpre : nd.inq > 0 ∨ nd.inClosed = true ∨ nd.failed = true ∨ nd.hand = 1 ∨ (isUdf nd.kind = true ∧ nd.stopping = true)) :
     Can e nd child ∨
       (nd.failed = false ∧ nd.hand = 1 ∧ ∃ c, child = some c ∧ ¬ c.inq < e.cap ∧ c.inAborted = false) := by
@@ -127,8 +127,7 @@ theorem node_local {e : Env} {nd : Nd} {child : Option Nd} (hD : DNode nd)
         simp only [nodeStep, hnd, hh1, hf, hk]
         by_cases hbb : nd.buf + 1 ≥ B <;> simp [hhd, hbb]
       | loop => simp [hk, isLoop] at hnl
-      | udf => have := hD.nu; simp [hk, isUdf] at this
-      | pass | post | alert _ | fail _ | barrier _ =>
+      | pass | post | alert _ | fail _ | barrier _ | udf =>
         have hfd := hD.fd
         cases hc : child with
         | none => exact Or.inl ⟨.put, by simp [nodeStep, hnd, hh1, hf, hk, hfd]⟩
@@ -136,7 +135,7 @@ theorem node_local {e : Env} {nd : Nd} {child : Option Nd} (hD : DNode nd)
           by_cases hsp : c.inq < e.cap
           · exact Or.inl ⟨.put, by simp [nodeStep, hnd, hh1, hf, hk, hsp, hfd]⟩
           · by_cases hab : c.inAborted = true
-            · exact Or.inl ⟨.putErr, by simp [nodeStep, hnd, hh1, hf, hk, hab]⟩
+            · exact Or.inl ⟨.putErr, by simp [nodeStep, hnd, hh1, hf, hk, hab, hfo]⟩
             · exact Or.inr ⟨rfl, hh1, c, rfl, hsp, by simpa using hab⟩
     · have hh0 : nd.hand = 0 := by omega
       by_cases hq : nd.inq > 0
@@ -196,7 +195,7 @@ theorem can_nodeCan {cfg : Cfg} {s : State} {i : Nat} {nd : Nd} (hi : s.nodes[i]
 /-- **Chain liveness**: a node that is not finished and has something to do (a message, a closed input, an error,
 an aborted UDF) — it or some node downstream of it can move. -/
 theorem chain_live {cfg : Cfg} {s : State} (hd : DInv s) (hcap : 1 ≤ cfg.cap) (hhook : cfg.hookLock = false)
-    (hleak : cfg.alertLeak = false) (hea : cfg.influxEarlyAbort = false) :
+    (hleak : cfg.alertLeak = false) (hea : cfg.influxEarlyAbort = false) (hfo : cfg.udfFwdOrphan = false) :
     ∀ (m i : Nat) (nd : Nd), s.nodes.length - i ≤ m → s.nodes[i]? = some nd → nd.done = false →
       (nd.inq > 0 ∨ nd.inClosed = true ∨ nd.failed = true ∨ nd.hand = 1 ∨ (isUdf nd.kind = true ∧ nd.stopping = true)) →
       NodeCan cfg s := by
@@ -212,7 +211,7 @@ theorem chain_live {cfg : Cfg} {s : State} (hd : DInv s) (hcap : 1 ≤ cfg.cap) 
   | succ m ih =>
     intro i nd hm hi hnd hpre
     have hD := hd.nodes i nd hi
-    rcases node_local (e := env cfg s) (child := s.nodes[i+1]?) hD (by simp [env, hhook]) (by simp [env, hleak]) (by simp [env, hea]) hnd hpre with hc | ⟨hf, hh1, c, hc, hfull, hnab⟩
+    rcases node_local (e := env cfg s) (child := s.nodes[i+1]?) hD (by simp [env, hhook]) (by simp [env, hleak]) (by simp [env, hea]) (by simp [env, hfo]) hnd hpre with hc | ⟨hf, hh1, c, hc, hfull, hnab⟩
     · exact can_nodeCan hi hc
     · -- blocked on the full input edge of the child: the child can move (or something below it)
       have hp := hd.pairs i nd c hi hc
@@ -266,7 +265,7 @@ theorem NodeCan.progress {cfg s} (h : NodeCan cfg s) : Progress cfg s := by
 
 /-- the fork goroutine holds tm.mu.RLock: it (or the chain below the source edge) can move -/
 theorem fork_put_live {cfg : Cfg} {s : State} (hd : DInv s) (hcap : 1 ≤ cfg.cap) (hhook : cfg.hookLock = false)
-    (hleak : cfg.alertLeak = false) (hea : cfg.influxEarlyAbort = false) (hne : s.nodes ≠ []) (hrl : s.forkRL = true) (h3 : rank s.ph ≤ 3) : Progress cfg s := by
+    (hleak : cfg.alertLeak = false) (hea : cfg.influxEarlyAbort = false) (hfo : cfg.udfFwdOrphan = false) (hne : s.nodes ≠ []) (hrl : s.forkRL = true) (h3 : rank s.ph ≤ 3) : Progress cfg s := by
   by_cases hl : s.forkLoop = 1
   · exact ⟨.forkPut, by simp [step, hrl, hl]⟩
   · have hh : s.forkHand = 1 := by rcases hd.frl hrl with h | h; exact h; exact absurd h hl
@@ -293,12 +292,12 @@ theorem fork_put_live {cfg : Cfg} {s : State} (hd : DInv s) (hcap : 1 ≤ cfg.ca
                   · have := (hd.first nd h0).1 hcl; simp [this] at hreg
                   · have := (hd.stopP 0 nd h0 (by simp [hu])).mp hst
                     cases hph : s.ph <;> simp_all [abortedBy, rank]
-            exact (chain_live hd hcap hhook hleak hea s.nodes.length 0 nd (by omega) h0 hnd (Or.inl hq)).progress
+            exact (chain_live hd hcap hhook hleak hea hfo s.nodes.length 0 nd (by omega) h0 hnd (Or.inl hq)).progress
     · exact ⟨.forkPut, by simp [step, hrl, hl, hh, hreg]⟩
 
 /-- **No deadlock**: under the protocol invariant, if the stop has not completely finished, some action is enabled. -/
 theorem progress_or_stopped {cfg : Cfg} {s : State} (hd : DInv s) (hcap : 1 ≤ cfg.cap) (hhook : cfg.hookLock = false)
-    (hleak : cfg.alertLeak = false) (hea : cfg.influxEarlyAbort = false) (hne : s.nodes ≠ []) : Progress cfg s ∨ s.stopped = true := by
+    (hleak : cfg.alertLeak = false) (hea : cfg.influxEarlyAbort = false) (hfo : cfg.udfFwdOrphan = false) (hne : s.nodes ≠ []) : Progress cfg s ∨ s.stopped = true := by
   have stopOk : (stopStep cfg s).isSome = true → Progress cfg s := fun h => ⟨.stop, by simpa [step] using h⟩
   -- the node the stop is working on can move (or something downstream of it)
   have waitLive : ∀ (i : Nat) (nd : Nd), s.ph.idx = some i → s.nodes[i]? = some nd → nd.done = false → Progress cfg s := by
@@ -307,7 +306,7 @@ theorem progress_or_stopped {cfg : Cfg} {s : State} (hd : DInv s) (hcap : 1 ≤ 
     have hprev : ∀ k, k < i → doneBy s.ph k = true := by
       intro k hk; cases hph : s.ph <;> simp_all [Ph.idx, doneBy]
     have := inedge_closed hd hi hnd h5 hprev
-    exact (chain_live hd hcap hhook hleak hea s.nodes.length i nd (by omega) hi hnd (Or.inr (Or.inl this))).progress
+    exact (chain_live hd hcap hhook hleak hea hfo s.nodes.length i nd (by omega) hi hnd (Or.inr (Or.inl this))).progress
   cases hph : s.ph with
   | idle => exact Or.inl (stopOk (by simp [stopStep, hph]))
   | closeIngest => exact Or.inl (stopOk (by simp [stopStep, hph]))
@@ -321,7 +320,7 @@ theorem progress_or_stopped {cfg : Cfg} {s : State} (hd : DInv s) (hcap : 1 ≤ 
     · exact stopOk (by simp [stopStep, hph, hfd])
     · have hlk := hd.lk (by simp [hph, rank])
       by_cases hrl : s.forkRL = true
-      · exact fork_put_live hd hcap hhook hleak hea hne hrl (by simp [hph, rank])
+      · exact fork_put_live hd hcap hhook hleak hea hfo hne hrl (by simp [hph, rank])
       · by_cases hh : s.forkHand = 1 ∨ s.forkLoop = 1
         · exact ⟨.forkLock, by simp [step, hh, hrl, hlk, hph, Ph.wantsLock]⟩
         · have h1 := hd.fh1
@@ -336,7 +335,7 @@ theorem progress_or_stopped {cfg : Cfg} {s : State} (hd : DInv s) (hcap : 1 ≤ 
     left
     have hlk := hd.lk (by simp [hph, rank])
     by_cases hrl : s.forkRL = true
-    · exact fork_put_live hd hcap hhook hleak hea hne hrl (by simp [hph, rank])
+    · exact fork_put_live hd hcap hhook hleak hea hfo hne hrl (by simp [hph, rank])
     · exact stopOk (by simp [stopStep, hph, hrl, hlk])
   | wgWait =>
     left
@@ -377,13 +376,11 @@ theorem progress_or_stopped {cfg : Cfg} {s : State} (hd : DInv s) (hcap : 1 ≤ 
     | barrier d => exact hD.bd (by simp [hk, isBarrier]) hdn
     | _ => exact hD.nh (by simp [hk, Kind.hasHelper])
 
-theorem dinv_init (kinds : List Kind) (n : Nat) (hk : ∀ k ∈ kinds, isLoop k = false)
-    (hu : ∀ k ∈ kinds, isUdf k = false) : DInv (init kinds n) := by
+theorem dinv_init (kinds : List Kind) (n : Nat) (hk : ∀ k ∈ kinds, isLoop k = false) : DInv (init kinds n) := by
   refine ⟨?_, ?_, ?_, ?_, ?_, ?_, ?_, ?_, ?_, ?_, ?_, ?_, ?_, ?_⟩
   · intro i nd h
     obtain ⟨k, hki, rfl⟩ := init_getElem? _ _ _ _ h
     have := hk k (List.mem_of_getElem? hki)
-    have := hu k (List.mem_of_getElem? hki)
     constructor <;> simp_all [mkNd]
     · cases k <;> simp_all [bufK, isAlert, isInflux, Kind.hasHelper]
     · cases k <;> simp_all [isInflux, Kind.hasHelper]
@@ -408,14 +405,14 @@ theorem dinv_init (kinds : List Kind) (n : Nat) (hk : ∀ k ∈ kinds, isLoop k 
   · simp [init]
   · simp [init]
 
-theorem dinv_run {cfg} {s : State} (hleak : cfg.alertLeak = false) (hea : cfg.influxEarlyAbort = false) (hd : DInv s) (as : List Act) :
+theorem dinv_run {cfg} {s : State} (hleak : cfg.alertLeak = false) (hea : cfg.influxEarlyAbort = false) (hfo : cfg.udfFwdOrphan = false) (hd : DInv s) (as : List Act) :
     DInv (run cfg s as) := by
   induction as generalizing s with
   | nil => exact hd
   | cons a as ih =>
     simp only [run]
     split
-    · rename_i s' hs; exact ih (dinv_step hs hleak hea hd)
+    · rename_i s' hs; exact ih (dinv_step hs hleak hea hfo hd)
     · exact ih hd
 
 theorem run_nodes_length {cfg} {s : State} (as : List Act) : (run cfg s as).nodes.length = s.nodes.length := by
